@@ -194,9 +194,10 @@ def tip_arg_value(t):
         return tuple(vals)
     if present == "iter":
         return (v for v in vals)  # a one-shot iterable (generator, map, reversed, ...)
-    if present == "set":
+    if present == "set" and len({s[0] for s in t["x"]}) == 1:
+        # only numbers or only Tip members: Python itself merges the number 4 with Tip.T3 (value 4) in a mixed set
         try:
-            return set(vals)  # Tip members and equal numbers merge, the OR does not change
+            return set(vals)
         except TypeError:
             return vals
     return vals
